@@ -38,6 +38,7 @@ type caseA struct {
 	NoPolicy  bool   `json:"no_policy,omitempty"` // the bucket starts without any bucket policy
 	Older     bool   `json:"older,omitempty"`     // versioned buckets: the protected version is not the current one
 	DirKey    bool   `json:"dir_key,omitempty"`   // the protected object is a directory object (key ending in '/', no data)
+	DirDepth  int    `json:"dir_depth,omitempty"` // ... that many levels below the bucket (0 = at the top: "precious-dir/", 2: "n1/n2/precious-dir/")
 	PolStyle  int    `json:"policy_style,omitempty"`
 	Ops       []op   `json:"ops"`
 }
@@ -141,6 +142,9 @@ func execA(c caseA) (st stats, err error) {
 	key, policyStyle = "precious", c.PolStyle
 	if c.DirKey {
 		key = "precious-dir/"
+		for d := c.DirDepth; d > 0; d-- {
+			key = fmt.Sprintf("n%d/", d) + key
+		}
 	}
 	eng, sb, err := engine(c)
 	if err != nil {
@@ -519,7 +523,10 @@ func TestC10A(t *testing.T) {
 		c.BobBypass = rapid.Bool().Draw(t, "bob_bypass")
 		c.NoPolicy = rapid.IntRange(0, 3).Draw(t, "no_policy") == 0
 		c.Older = rapid.IntRange(0, 2).Draw(t, "older") == 0
-		c.DirKey = rapid.IntRange(0, 5).Draw(t, "dir_key") == 0
+		c.DirKey = rapid.IntRange(0, 4).Draw(t, "dir_key") == 0
+		if c.DirKey {
+			c.DirDepth = rapid.SampledFrom([]int{0, 1, 2, 2}).Draw(t, "dir_depth")
+		}
 		c.PolStyle = rapid.SampledFrom([]int{0, 0, 1, 2, 2}).Draw(t, "policy_style")
 		c.Ops = rapid.SliceOfN(opGen(), 1, 10).Draw(t, "ops")
 		ev.Trace("C10A", c)
@@ -535,7 +542,7 @@ func TestC10A(t *testing.T) {
 		if st.RefusedWeakening > 0 {
 			cls = append(cls, "weakening-refused")
 		}
-		ev.Case(fmt.Sprintf("%s/%d|%v|%v|%v|%v|%v|%v|%v|%d", c.Protect, c.ModeCase, c.Versioned, c.Sidecar, c.BobBypass, c.NoPolicy, c.Older, c.Ops, c.DirKey, c.PolStyle), st.Accepted > 0 || st.RefusedWeakening > 0, cls...)
+		ev.Case(fmt.Sprintf("%s/%d|%v|%v|%v|%v|%v|%v|%v|%d", c.Protect, c.ModeCase, c.Versioned, c.Sidecar, c.BobBypass, c.NoPolicy, c.Older, c.Ops, c.DirKey, c.PolStyle)+fmt.Sprint(c.DirDepth), st.Accepted > 0 || st.RefusedWeakening > 0, cls...)
 		ev.Sample("protect:"+c.Protect, 1, c)
 		if err != nil {
 			if strings.HasPrefix(err.Error(), "SETUP") {
